@@ -16,7 +16,8 @@ import (
 
 // Forced-window trials: a controller goroutine executes a script; gates at
 // the two schedule points hold the consumer between a failed next() and the
-// select, and a producer between the closed check and the insert. The verdict
+// select, and a producer on its way into the insertion (before the closed
+// test that Insert makes under the queue lock) while Close runs. The verdict
 // comes from the same history oracle and stuck rule as the concurrent trials;
 // a gate that is never reached only makes the trial count as "not forced".
 
@@ -669,12 +670,24 @@ func forcedTrial(r *vlib.Run, trial int, rng *rand.Rand) {
 	for _, f := range fs {
 		r.Violation("forced", trial, f.sig, fmt.Sprintf("script [%s] (gates reached %d/%d): %s", script, gotGates, wantGates, f.what), witness)
 	}
+	for _, in := range ins {
+		if in.Prod == 1 { // the Insert that was held at the gate
+			if in.Err {
+				r.Count("forced_held_insert_refused", 1)
+			} else {
+				r.Count("forced_held_insert_accepted", 1)
+			}
+		}
+	}
 	r.Count("forced_inserts_accepted", st.accepted)
 	r.Count("forced_inserts_refused", st.refused)
 	r.Count("forced_inserts_overlapping_or_after_close_accepted", st.inflight)
 	r.Count("forced_deliveries", st.deliveries)
 	r.Count("forced_coalesced_deliveries", st.coalesced)
-	r.Count("forced_units_recovered_after_closed_report", st.recoveredByDrain)
+	r.Count("forced_units_returned_after_closed_report", st.recoveredByDrain)
+	if st.allBeforeClosed {
+		r.Count("forced_trials_all_accepted_delivered_before_closed", 1)
+	}
 	r.Count("forced_order_pairs_judged", st.orderJudged)
 	if gotGates < wantGates {
 		r.Inconclusive("forced: a requested window was not reached (hook point not hit); judged as an ordinary trial")
